@@ -1,6 +1,7 @@
 """C06  Attack tables are exact for every square and every occupancy  (DESIGN 3, C06)."""
 import os
 import sys
+import re
 import time
 
 from . import engine, mir
@@ -612,7 +613,233 @@ def rule_subset_enum(ctx):
     ctx.check(ok, "drop_forward:pops-lowest-bit", "drop_forward returns trailing_zeros and clears that bit (x &= x - 1)", df.where(0), bad_what="drop_forward is `%s` / clears with %s" % (expr_str(r), [expr_str(c) for c in clr]))
 
 
-RULES = [("magic", rule_magic), ("scheme", rule_scheme), ("mask-edges", rule_mask_edges), ("ray-walk", rule_ray_walk), ("leapers", rule_leapers), ("queen", rule_queen), ("subset-enum", rule_subset_enum)]
+
+
+# --------------------------------------------------------------------------------- C06.rays
+
+WIDTH = {"u8": 8, "u16": 16, "u32": 32, "u64": 64, "usize": 64, "i8": 8, "i16": 16, "i32": 32, "i64": 64, "isize": 64, "char": 32}
+
+
+class Undef(Exception):
+    """The expression tree contains something the folder has no meaning for, or an operation that would panic."""
+
+
+def _loop_step_summary(ix, key):
+    """For `fn f(self, n) { let mut out = self; for _ in 0..n { out = STEP(out) } out }`: the expression STEP (over the
+    variable `output`), or None when the body is not of that shape."""
+    b = ix.bodies.get(key)
+    if b is None:
+        return None
+    sym = mir.Sym(b, ix)
+    outs = [l for l in range(len(b.locals)) if b.local_name(l) == "output"]
+    if len(outs) != 1:
+        return None
+    defs = b.defs().get(outs[0], [])
+    if len(defs) != 2:
+        return None
+    init = [d for d in defs if not b.in_loop(d[0])]
+    step = [d for d in defs if b.in_loop(d[0])]
+    if len(init) != 1 or len(step) != 1:
+        return None
+    if sym.rvalue(init[0][2]) != ("arg", "self"):
+        return None
+    # one loop, over Range{0, n}
+    its = [l for l in range(len(b.locals)) if b.local_name(l).startswith("iter")]
+    if len(its) != 1:
+        return None
+    rng = sym.expand_var(("var", b.local_name(its[0])))
+    ok = False
+    for x in walk(rng):
+        if isinstance(x, tuple) and x[0] == "agg" and isinstance(x[1], str) and x[1].endswith("ops::Range") and len(x[3]) == 2:
+            ok = x[3][0][:2] == ("const", 0) and x[3][1] == ("arg", "n")
+    ret = sym.local(0)
+    if not ok or ret != ("var", "output"):
+        return None
+    rv = step[0][2]
+    return sym.rvalue(rv) if rv.get("k") != "call" else ("call", strip_generics(mir.callee_name(rv["t"])), tuple(sym.operand(a) for a in rv["t"]["args"]))
+
+
+def fold_tree(ix, e, env, depth=0):
+    """Value of a closed arithmetic expression under `env` ({rendered leaf: int | dict}).  Crate functions whose body is one
+    expression (the Bitboard operator impls, conversions) are folded through their return expression; the two n-fold
+    shift loops through their recognised step.  Raises Undef for anything else."""
+    if depth > 30:
+        raise Undef("too deep")
+    key = expr_str(e)
+    if key in env:
+        return env[key]
+    k = e[0]
+    if k == "const" and isinstance(e[1], int):
+        return e[1]
+    if k in ("ref", "deref"):
+        return fold_tree(ix, e[1], env, depth + 1)
+    if k == "cast":
+        v = fold_tree(ix, e[1], env, depth + 1)
+        w = WIDTH.get(e[2])
+        if not isinstance(v, int) or w is None:
+            raise Undef("cast to %s" % e[2])
+        return v & ((1 << w) - 1)
+    if k == "un":
+        v = fold_tree(ix, e[2], env, depth + 1)
+        if e[1] == "Not" and isinstance(v, int):
+            return (~v) & M64
+        raise Undef("unary %s" % e[1])
+    if k == "bin":
+        a, b = fold_tree(ix, e[2], env, depth + 1), fold_tree(ix, e[3], env, depth + 1)
+        if not isinstance(a, int) or not isinstance(b, int):
+            raise Undef("operands of %s" % e[1])
+        op = e[1].replace("WithOverflow", "").replace("Unchecked", "")
+        if op in ("Shl", "Shr"):
+            if not 0 <= b < 64:
+                raise Undef("shift by %d" % b)
+            return (a << b) & M64 if op == "Shl" else a >> b
+        if op == "Add":
+            r = a + b
+        elif op == "Sub":
+            r = a - b
+        elif op == "Mul":
+            r = a * b
+        elif op == "Div":
+            if b == 0:
+                raise Undef("division by zero")
+            r = a // b
+        elif op == "Rem":
+            if b == 0:
+                raise Undef("remainder by zero")
+            r = a % b
+        elif op == "BitAnd":
+            r = a & b
+        elif op == "BitOr":
+            r = a | b
+        elif op == "BitXor":
+            r = a ^ b
+        else:
+            raise Undef("operator %s" % op)
+        if r < 0 or r > M64:
+            raise Undef("%s overflows" % op)
+        return r
+    if k == "agg":
+        if isinstance(e[1], str) and e[1].endswith("Bitboard") and len(e[3]) == 1:
+            return fold_tree(ix, e[3][0], env, depth + 1)
+        if len(e) > 4 and e[4]:
+            return {n: fold_tree(ix, x, env, depth + 1) for n, x in zip(e[4], e[3])}
+        raise Undef("aggregate %s" % e[1])
+    if k == "field":
+        base = fold_tree(ix, e[1], env, depth + 1)
+        for n in e[2:]:
+            if isinstance(base, dict) and n in base:
+                base = base[n]
+            elif isinstance(base, int) and n == "0":
+                pass  # Bitboard(x).0
+            else:
+                raise Undef("field %s" % n)
+        return base
+    if k == "call" and isinstance(e[1], str):
+        c = e[1]
+        args = e[2]
+        if c.endswith("Bitboard::new") or c.endswith(">::into") or (c.endswith(">::from") and "Square" not in c) or c.endswith("::clone") or c.endswith("Bitboard as std::ops::Deref>::deref"):
+            return fold_tree(ix, args[0], env, depth + 1)
+        if c.endswith("::checked_shl") or c.endswith("::checked_shr"):
+            a, n = fold_tree(ix, args[0], env, depth + 1), fold_tree(ix, args[1], env, depth + 1)
+            if not 0 <= n < 64:
+                return {"__none__": True}
+            return (a << n) & M64 if c.endswith("shl") else a >> n
+        if c.endswith("Option::unwrap_or"):
+            a = fold_tree(ix, args[0], env, depth + 1)
+            return fold_tree(ix, args[1], env, depth + 1) if isinstance(a, dict) and a.get("__none__") else a
+        m = re.match(r"^<(u8|u16|u32|u64|usize) as std::ops::(Shl|Shr|BitAnd|BitOr|BitXor|Add|Sub|Mul|Div|Rem)(<.*>)?>::[a-z]+$", c)
+        if m and len(args) == 2:
+            return fold_tree(ix, ("bin", m.group(2), args[0], args[1]), env, depth + 1)
+        m = re.match(r"^<(u8|u16|u32|u64|usize) as std::ops::Not>::not$", c)
+        if m and len(args) == 1:
+            return fold_tree(ix, ("un", "Not", args[0]), env, depth + 1)
+        if c.endswith("::wrapping_mul"):
+            return (fold_tree(ix, args[0], env, depth + 1) * fold_tree(ix, args[1], env, depth + 1)) & M64
+        if c in ("board::bitboard::Bitboard::shift_east", "board::bitboard::Bitboard::shift_west"):
+            step = _loop_step_summary(ix, c)
+            if step is None:
+                raise Undef("%s is not an n-fold step loop" % mir.short(c))
+            x, n = fold_tree(ix, args[0], env, depth + 1), fold_tree(ix, args[1], env, depth + 1)
+            if not isinstance(n, int) or n > 64:
+                raise Undef("step count")
+            for _ in range(n):
+                x = fold_tree(ix, step, {"output": x}, depth + 1)
+            return x
+        cb = ix.bodies.get(c)
+        if cb is not None and cb.kind == "fn" and not any(cb.in_loop(blk.idx) for blk in cb.blocks if not blk.cleanup and blk.idx in cb.live_blocks()):
+            r = mir.Sym(cb, ix).local(0)
+            if any(isinstance(x, tuple) and x and x[0] in ("var", "unknown") for x in walk(r)):
+                raise Undef("%s is not a single expression" % mir.short(c))
+            env2 = {}
+            for i, a in enumerate(args):
+                v = fold_tree(ix, a, env, depth + 1)
+                nm = cb.local_name(i + 1)
+                env2[nm] = v
+                env2["*" + nm] = v
+                if isinstance(v, int):
+                    env2["%s.0" % nm] = v
+                    env2["*%s.0" % nm] = v
+                elif isinstance(v, dict):
+                    for fk, fv in v.items():
+                        env2["%s.%s" % (nm, fk)] = fv
+                        env2["*%s.%s" % (nm, fk)] = fv
+            return fold_tree(ix, r, env2, depth + 1)
+        raise Undef("call of %s" % mir.short(c))
+    raise Undef("%s" % k)
+
+
+def rule_rays(ctx):
+    """init_rays: for each of the 8 directions the stored expression, folded for idx = 0..63, is the geometric ray."""
+    ix = ctx.ix
+    b = ctx.body("board::square::rays::init_rays")
+    sym = ctx.sym(b)
+    adt = ix.adt("board::square::Direction")
+    dname = {int(v["discr"]): v["name"] for v in adt["variants"]}
+    stores = {}
+    for bi, i, s in b.stmts():
+        lhs = s["lhs"]
+        if len(lhs["p"]) == 2 and lhs["p"][0] == "*" and isinstance(lhs["p"][1], dict) and ("i" in lhs["p"][1] or "ci" in lhs["p"][1]):
+            d = ceval(sym.local(lhs["p"][1]["i"])) if "i" in lhs["p"][1] else lhs["p"][1]["ci"]
+            stores.setdefault(dname.get(d, d), []).append((bi, sym.rvalue(s["rv"])))
+    ctx.check(sorted(map(str, stores)) == sorted(G.DIRS) and all(len(v) == 1 for v in stores.values()), "rays:eight-stores", "init_rays stores one ray per direction for each square", b.where(0),
+              bad_what="init_rays stores rays for %s" % sorted(map(str, stores)))
+    # the loop runs over all 64 squares: iter_mut().enumerate() of the 64-element array
+    it = None
+    for l in range(len(b.locals)):
+        if b.local_name(l) == "iter":
+            it = sym.expand_var(("var", "iter"))
+    ok_loop = it is not None and "enumerate" in expr_str(it) and "iter_mut" in expr_str(it) and "rays" in expr_str(it)
+    ctx.check(ok_loop, "rays:all-squares", "the loop visits rays[0..64] with its index", b.where(0), bad_what="the fill loop of init_rays is not `for (idx, r) in rays.iter_mut().enumerate()` (%s)" % (expr_str(it)[:80] if it else None))
+    idx_names = [n for n in ("idx",) if any(b.local_name(l) == n for l in range(len(b.locals)))]
+    for d in sorted(G.DIRS):
+        if d not in stores or len(stores[d]) != 1:
+            continue
+        bi, e = stores[d][0]
+        bad = []
+        why = None
+        for sq in range(64):
+            env = {}
+            # the loop variable, however it is spelt in the expression (named local or the Option payload)
+            for x in walk(e):
+                if isinstance(x, tuple) and x[0] == "var" and x[1] in ("idx",):
+                    env[expr_str(x)] = sq
+                if isinstance(x, tuple) and x[0] == "field" and x[-2:] == ("0", "0") and x[1][0] == "as" and "next" in expr_str(x[1]):
+                    env[expr_str(x)] = sq
+            try:
+                v = fold_tree(ix, e, env)
+            except Undef as u:
+                why = str(u)
+                break
+            if v != G.ray_mask(sq, d):
+                bad.append((G.square_name(sq), "0x%016x" % v if isinstance(v, int) else v, "0x%016x" % G.ray_mask(sq, d)))
+        if why:
+            ctx.bad("rays:%s" % d, "the %s ray expression cannot be folded (%s): cannot decide" % (d, why), b.where(bi))
+        else:
+            ctx.check(not bad, "rays:%s" % d, "rays[sq][%s] is the geometric %s ray for all 64 squares" % (d, d), b.where(bi),
+                      bad_what="rays[sq][%s] is not the geometric ray for %d square(s), e.g. %s (got, expected)" % (d, len(bad), bad[:3]))
+
+
+RULES = [("rays", rule_rays), ("magic", rule_magic), ("scheme", rule_scheme), ("mask-edges", rule_mask_edges), ("ray-walk", rule_ray_walk), ("leapers", rule_leapers), ("queen", rule_queen), ("subset-enum", rule_subset_enum)]
 
 
 def run(tier):
